@@ -66,7 +66,7 @@ def crashrun(binary, name, run, d, out, crash_at=None, iolog=None):
     os.makedirs(d, exist_ok=True)
     pf = out + ".plan.json"
     json.dump(job_of(name, run, d), open(pf, "w"))
-    env = {"LD_PRELOAD": SHIM}
+    env = {"LD_PRELOAD": SHIM, "TCSS_IO_DIR": d}      # every file below the data directory is observed
     if crash_at is not None:
         env["TCSS_CRASH_AT"] = str(crash_at)
     if iolog:
@@ -102,18 +102,36 @@ def parse_iolog(path):
     return ops
 
 
+def fname(cls):
+    """file name (relative to the data directory) of a class of the I/O log"""
+    return DBNAME + SUFFIX[cls] if cls in SUFFIX else cls
+
+
 class DiskModel:
-    """durable content per file + operations not yet covered by an fsync"""
+    """durable content per file (any file below the data directory) + operations not yet covered by an fsync"""
 
     def __init__(self):
-        self.durable = {}      # cls -> bytearray (exists) ; absent = does not exist
-        self.pending = []      # (cls, kind, off, data)
+        self.durable = {}      # name -> bytearray (exists) ; absent = does not exist
+        self.pending = []      # (name, kind, off, data)
+        self.dirs = set()
 
     def step(self, o):
-        cls, op = o["cls"], o["op"]
+        op = o["op"]
+        if op == "rename":
+            a, b = o["cls"].split(">", 1)
+            a, b = fname(a), fname(b)
+            # assumption: directory operations are durable in issue order; the data follows the name
+            if a in self.durable:
+                self.durable[b] = self.durable.pop(a)
+            self.pending = [((b if p[0] == a else p[0]),) + p[1:] for p in self.pending]
+            return
+        if op == "mkdir":
+            self.dirs.add(fname(o["cls"]))
+            return
+        cls = fname(o["cls"])
         if op == "open":
             if (o["off"] & O_CREAT) and cls not in self.durable:
-                self.durable[cls] = bytearray()      # assumption: directory operations are durable in issue order
+                self.durable[cls] = bytearray()
         elif op == "pwrite":
             if cls not in self.durable:
                 self.durable[cls] = bytearray()
@@ -147,6 +165,9 @@ class DiskModel:
                 del b[off:]
             else:
                 b.extend(b"\0" * (off - len(b)))
+
+    def size(self):
+        return sum(len(v) for v in self.durable.values()) + sum(len(p[3]) for p in self.pending)
 
     def image(self, subset, torn=None):
         files = {k: bytearray(v) for k, v in self.durable.items()}
@@ -187,12 +208,17 @@ def variants(n, rng, tier):
     return res
 
 
-def write_image(files, d):
+def write_image(files, d, dirs=()):
     os.makedirs(d, exist_ok=True)
-    for cls, b in files.items():
-        if cls in SUFFIX:
-            with open(os.path.join(d, DBNAME + SUFFIX[cls]), "wb") as f:
-                f.write(b)
+    for sub in dirs:
+        os.makedirs(os.path.join(d, sub), exist_ok=True)
+    for name, b in files.items():
+        if name.endswith("-shm"):
+            continue
+        p = os.path.join(d, name)
+        os.makedirs(os.path.dirname(p), exist_ok=True)
+        with open(p, "wb") as f:
+            f.write(b)
 
 
 def prefix_for(events, k):
@@ -261,6 +287,7 @@ def wal_events(ops, events, max_pages=40):
             stats["acks"] += 1
             ai += 1
         cls, op = o["cls"], o["op"]
+        cls = {DBNAME: "db", DBNAME + "-wal": "wal", DBNAME + "-journal": "journal"}.get(cls, cls)
         if cls == "wal":
             if op == "pwrite":
                 data, off = o["data"], o["off"]
